@@ -10,6 +10,7 @@ CLAIMED = {
  "C09": ("proof", "For each of the 14 registered classes and each option variant: from_config(get_config()) and get_quantizer(dict) do not raise and restore every attribute read by __call__/max/min (read set computed from the AST), hence the same function; where an attribute differs the outputs of both quantizers are compared symbolically (native probe as a labelled bounded fallback). Registry lookup for all 14 decorated classes.", "K2 contract of deserialize_keras_object; non-numeric options varied one at a time; frame argument (equal read state => equal output); reduction ops as uninterpreted group aggregates."),
  "C10": ("proof", "Printing: __str__ of every registered class x option variant executed symbolically; the text is tokenised per the GetParams contract, items bound to constructor parameters, literal text converted by the real GetArg; clauses no_raise / parses / slot_<param> / omitted_<param>. Parsing: GetParams args/kwargs/order-check for every positional/keyword pattern up to 5 items with opaque tokens; safe_eval dispatch and a syntactic no-exec frame clause.", "pyparsing tokenisation assumed (K); str(number) free of separators and GetArg(str(v)) == v assumed; literal-level GetArg behaviour on arbitrary text is NOT proved here (strings are outside the engine's solver fragment)."),
  "C19": ("proof", "get_operation_count per layer-class branch equals the closed-form MAC count for all symbolic geometries (polynomial identities); memory_read/write_energy non-negative and zero for fixed placement; extract_energy_sum/profile equal the sum of the selected entries.", "Keras compute_output_shape / kernel shapes assumed (K4); energy_estimate's per-layer op_cost formulas and the model-level total are not covered; closed-form MAC counts taken as the definition of the loop-nest count."),
+ "C20": ("proof", "ForgivingFactor.delta: zero at equal sizes, sign, strictly decreasing (two-run VC over symbolic reals); ForgivingFactorBits size model per layer/activation case with symbolic shapes and bit widths; AutoQKHyperModel._get_quantizer for ALL tuner choices (hp.Choice forks over every member): membership, within-limit, none-iff-unlimited, one shared choice per pattern group; _adjust_limit.", "keras-tuner hp contract assumed; log axioms; quantize_model's loop over layers and its composition with model_quantize are not covered (only the limit filter it calls)."),
  "C16": ("proof", "Unbounded proof (all bit widths, integer bits, power-of-two max values) that every product of two operand values fits the output type reported by MultiplierFactory.make_multiplier, per table cell, with implementation kind and frame clauses; known defects carved out as explicit input regions and re-confirmed natively each run.", "CPython semantics of pyvc.interp, copy.deepcopy as structural copy, pow2/log2 axiom schemata (ground instances); max_value restricted to powers of two."),
  "C17": ("proof", "Unbounded proof (all widths, all N) of accumulator fits_sum_N/frac_keep, adder fits_sum/frac_keep/mono_widen per table cell, merge Add/Maximum/Concatenate for 2 and 3 inputs; known defects carved out as regions.", "Sum lemma (sum of N bounded grid values lies in [N*min, N*max] on the grid), merge layers only for 2-3 inputs, same trusted base as C16."),
 }
